@@ -187,6 +187,7 @@ package db
 //@ trusted func (IteratorDB).Iterator
 //@   frame allocates
 //@   ensures result != nil && result.itn >= 0
+//@   ensures forall p :: forall q :: 0 <= p && p < q && q < result.itn ==> result.itkeys[p] != result.itkeys[q]
 //@ trusted func (IteratorSeeker).Rewind
 //@   frame recv.itpos
 //@   ensures recv.itpos == 0
@@ -196,6 +197,7 @@ package db
 //@ trusted func (IteratorSeeker).Seek
 //@   frame recv.itpos
 //@   ensures 0 <= recv.itpos && recv.itpos <= recv.itn
+//@   ensures forall p :: recv.itpos < p && p < recv.itn ==> recv.itkeys[p] != bytes(key)
 //@ trusted func (Iterator).Valid
 //@   frame nothing
 //@   ensures result == (0 <= recv.itpos && recv.itpos < recv.itn)
@@ -261,3 +263,26 @@ package db
 //@   loop 0 invariant 0 <= it.itpos && it.itpos <= it.itn && i == len(results.results) && i == liveCount(it.itvals, it.itpos) && i >= 0
 //@   loop 0 invariant count > 0 ==> i < count || i == 0
 //@   loop 0 invariant it.itn == atentry(it.itn) && it.itvals == atentry(it.itvals) && results.direction == direction
+
+// a page continuing after `key`: the scan starts at the seek position, skips the entry equal to key, then
+// visits positions one by one; exactly the live ones are collected, never the entry of `key` itself
+//@ func (*ListHelper).IteratorScan [C07]
+//@   opt safety=assumed overflow=assumed
+//@   assert@call IteratorDB).Iterator: arg1 == prefix && isnil(arg2) && arg3 == !(((direction % 2) + 2) % 2 == 1)
+//@   assert@call Seeker).Seek: arg1 == key
+//@   assert@call collector).collect: arg1 == it && 0 <= it.itpos && it.itpos < it.itn && blen(it.itvals[it.itpos]) != 0 && it.itkeys[it.itpos] != bytes(key)
+//@   ensures called(result) && count > 0 ==> len(results.results) <= count
+//@   loop 0 invariant 0 <= atentry(it.itpos) && atentry(it.itpos) <= it.itpos && it.itpos <= it.itn && i == len(results.results) && i >= 0
+//@   loop 0 invariant i == liveCount(it.itvals, it.itpos) - liveCount(it.itvals, atentry(it.itpos))
+//@   loop 0 invariant count > 0 ==> i < count || i == 0
+//@   loop 0 invariant it.itn == atentry(it.itn) && it.itvals == atentry(it.itvals) && it.itkeys == atentry(it.itkeys) && results.direction == direction
+//@   loop 0 invariant forall p :: atentry(it.itpos) <= p && p < it.itn ==> it.itkeys[p] != bytes(key)
+
+// the next live entry at or after the seek position (everything before it is a tombstone)
+//@ func (*ListHelper).nextKeyValue [C07]
+//@   opt safety=assumed overflow=assumed
+//@   assert@call IteratorDB).Iterator: arg1 == prefix && isnil(arg2) && arg3
+//@   assert@call Seeker).Seek: arg1 == key
+//@   ensures !isnil(result) ==> len(result) == 2 && 0 <= it.itpos && it.itpos < it.itn && bytes(result[0]) == it.itkeys[it.itpos] && bytes(result[1]) == it.itvals[it.itpos] && blen(it.itvals[it.itpos]) != 0
+//@   loop 0 invariant atentry(it.itpos) <= it.itpos && it.itn == atentry(it.itn) && it.itvals == atentry(it.itvals) && it.itkeys == atentry(it.itkeys)
+//@   loop 0 invariant forall p :: atentry(it.itpos) <= p && p < it.itpos ==> blen(it.itvals[p]) == 0
